@@ -11,14 +11,19 @@ Section PubProofs.
   Lemma ack_apply_content now p r reason : content_of (ack_apply now p r reason) = content_of p.
   Proof. unfold content_of, ack_apply. cbn. now destruct (p_aud p). Qed.
 
-  (* the version is the hash of the content after every operation *)
+  (* the version is the hash of the content after every operation, whatever the update mask *)
   Theorem pub_step_version now pre o : version_ok hash pre -> version_ok hash (snd (pub_step hash now pre o)).
   Proof.
-    intros Hv. unfold pub_step, pub_step_gen. destruct o as [p|p mask version|id version receipt reason allow].
+    intros Hv. unfold pub_step, pub_step_gen.
+    destruct o as [p|p mask version|id version allow_missing|id version receipt reason allow].
     - destruct pre; cbn; auto.
-    - destruct (String.eqb (p_id p) ""); [exact Hv|]. destruct pre as [old|]; [|exact I].
+    - destruct (String.eqb (p_id p) ""); [exact Hv|].
+      destruct (match mask with Some k => k_bad k | None => false end); [exact Hv|].
+      destruct pre as [old|]; [|exact I].
       destruct (negb (String.eqb version "") && negb (String.eqb (p_version old) version)); [exact Hv|].
       apply computed_version.
+    - destruct (String.eqb id ""); [exact Hv|]. destruct pre as [old|]; [|destruct allow_missing; exact I].
+      destruct (negb (String.eqb version "") && negb (String.eqb (p_version old) version)); [exact Hv|exact I].
     - destruct (String.eqb id "" || String.eqb version ""); [exact Hv|]. destruct pre as [old|]; [|exact I].
       destruct (negb (String.eqb (p_version old) version)); [exact Hv|].
       destruct (acked old); [destruct (true && allow); exact Hv|].
@@ -29,6 +34,52 @@ Section PubProofs.
   Proof.
     unfold pub_run. induction ops as [|o ops IH]; intros pre Hv; cbn [fold_left]; [assumption|].
     apply IH. now apply pub_step_version.
+  Qed.
+
+  (* one step of a history: minted versions are hashes of the stored content; stale acknowledgements are refused *)
+  Theorem pub_step_law now s o : version_ok hash s -> step_law hash now s o.
+  Proof.
+    intros Hv. unfold step_law, pub_step, pub_step_gen.
+    destruct o as [p|p mask version|id version allow_missing|id version receipt reason allow].
+    - intros n. destruct s; cbn [fst snd]; [discriminate|]. intros [= <-]. split; reflexivity.
+    - intros n. destruct (String.eqb (p_id p) ""); [discriminate|].
+      destruct (match mask with Some k => k_bad k | None => false end); [discriminate|].
+      destruct s as [old|]; [|discriminate].
+      destruct (negb (String.eqb version "") && negb (String.eqb (p_version old) version)); [discriminate|].
+      cbn [fst snd]. intros [= <-]. split; reflexivity.
+    - intros n. destruct (String.eqb id ""); [discriminate|]. destruct s as [old|]; [|destruct allow_missing; discriminate].
+      destruct (negb (String.eqb version "") && negb (String.eqb (p_version old) version)); [discriminate|].
+      cbn [fst snd]. intros [= <-]. split; reflexivity.
+    - intros old -> Hid Hver Hstale. cbn in Hv.
+      destruct (String.eqb_spec id ""); [contradiction|]. destruct (String.eqb_spec version ""); [contradiction|].
+      cbn [orb]. destruct (String.eqb_spec (p_version old) version); [congruence|]. reflexivity.
+  Qed.
+
+  Theorem pub_history ops : forall s, version_ok hash s -> history_law hash s ops.
+  Proof.
+    induction ops as [|[o now] ops IH]; intros s Hv; cbn [history_law]; [exact I|]. split.
+    - now apply pub_step_law.
+    - apply IH. now apply pub_step_version.
+  Qed.
+
+  (* a masked update leaves the fields the mask does not name alone and takes the named ones from the request *)
+  Theorem merge_pub_fields k old p : pm_empty k = false ->
+    p_body (merge_pub (Some k) old p) = (if k_body k then p_body p else p_body old) /\
+    p_media (merge_pub (Some k) old p) = (if k_media k then p_media p else p_media old) /\
+    p_id (merge_pub (Some k) old p) = (if k_id k then p_id p else p_id old) /\
+    (k_aud k = false -> k_aname k = true -> forall sa, p_aud p = Some sa ->
+       exists a, p_aud (merge_pub (Some k) old p) = Some a /\ a_name a = a_name sa) /\
+    (k_aud k = false -> k_aname k = false -> 
+       match p_aud old with Some da => exists a, p_aud (merge_pub (Some k) old p) = Some a /\ a_name a = a_name da
+                          | None => True end).
+  Proof.
+    intros He. unfold merge_pub. rewrite He. cbn [p_body p_media p_id p_aud]. repeat split.
+    - intros Ha Hn sa Hs. rewrite Ha, Hn. cbn [orb]. unfold masked_aud. rewrite Hs, Hn.
+      destruct (p_aud old); eexists; split; reflexivity.
+    - intros Ha Hn. rewrite Ha, Hn. cbn [orb]. destruct (p_aud old) as [da|] eqn:Hd; [|exact I].
+      destruct (k_areceipt k || k_areason k || k_artime k).
+      + unfold masked_aud. rewrite Hn. destruct (p_aud p); eexists; split; reflexivity.
+      + eexists; split; reflexivity.
   Qed.
 
   (* create and update mint the publish time and reset the receipt *)
@@ -84,6 +135,17 @@ Section PubProofs.
     intros Hinj Hold Hstep. pose proof (pub_step_version now (Some old) (PUpdate p mask v) Hold) as Hn.
     rewrite Hstep in Hn. cbn in Hn, Hold. rewrite Hn, Hold. split; [apply Hinj|congruence].
   Qed.
+
+  (* the version a client saw before a content-changing update is refused afterwards (any mask) *)
+  Theorem stale_ack_after_update now now' old p mask v n id receipt reason allow :
+    (forall a b, hash a = hash b -> a = b) -> version_ok hash (Some old) ->
+    pub_step hash now (Some old) (PUpdate p mask v) = (POk n, Some n) ->
+    content_of n <> content_of old -> id <> "" -> p_version old <> "" ->
+    pub_step hash now' (Some n) (PAck id (p_version old) receipt reason allow) = (PErr 10, Some n).
+  Proof.
+    intros Hinj Hold Hstep Hc Hid Hv. apply ack_stale; try assumption.
+    intros Heq. apply Hc. apply (update_changes_version now old p mask v n Hinj Hold Hstep). now symmetry.
+  Qed.
 End PubProofs.
 
 (* as first written allow_acknowledged has no effect *)
@@ -91,3 +153,11 @@ Lemma ack_v0_ignores_allow :
   let old := mkPub "p" "v" "b" "" (Some (mkAud "a" ACCEPTED "" (Some 1))) (Some 0) in
   forall hash, fst (pub_step_v0 hash 7 (Some old) (PAck "p" "v" ACCEPTED "" true)) = PErr 9.
 Proof. reflexivity. Qed.
+
+(* a masked update of the audience name alone changes the content, hence (collision-free hash) the version *)
+Example masked_audience_update_changes_version :
+  let hash := fun c : content => let '(a, b, m, n) := c in append a (append b (append m n)) in
+  let old := computed hash 1 (mkPub "p" "" "x" "t" (Some (mkAud "alice" 0 "" None)) None) in
+  exists n, pub_step hash 2 (Some old) (PUpdate (mkPub "p" "" "" "" (Some (mkAud "bob" 0 "" None)) None) (Some pm_aname) "")
+            = (POk n, Some n) /\ p_version n = "pxtbob" /\ p_version old = "pxtalice" /\ p_body n = "x".
+Proof. eexists. repeat split. Qed.
